@@ -20,6 +20,7 @@ package datasource
 import (
 	"database/sql"
 	"reflect"
+	"strconv"
 )
 
 type nullTime = sql.NullTime
@@ -120,8 +121,32 @@ func DeepEqual(x, y interface{}) bool {
 	if okx && oky {
 		return flx == fly
 	}
+	// a DECIMAL column is a number in the images but arrives as text when the current row is scanned
+	if okx != oky {
+		if okx {
+			if f, ok := parseNumericText(typy); ok {
+				return flx == f
+			}
+		} else if f, ok := parseNumericText(typx); ok {
+			return f == fly
+		}
+	}
 
 	return reflect.DeepEqual(typx.Interface(), typy.Interface())
+}
+
+func parseNumericText(val reflect.Value) (float64, bool) {
+	var text string
+	switch {
+	case val.Kind() == reflect.String:
+		text = val.String()
+	case val.Kind() == reflect.Slice && val.Type().Elem().Kind() == reflect.Uint8:
+		text = string(val.Bytes())
+	default:
+		return 0, false
+	}
+	f, err := strconv.ParseFloat(text, 64)
+	return f, err == nil
 }
 
 func parseFloatIfOk(val reflect.Value) (float64, bool) {
